@@ -324,7 +324,7 @@ def load_ndjson(path):
 def run_harness(ctx, sets, rules, tag=""):
     evp = os.path.join(ctx.scratch, "c14_events%s.json" % tag)
     rp = os.path.join(ctx.scratch, "c14_rules%s.ndjson" % tag)
-    json.dump({"seed": ctx.seed, "events": sets, "fresh": [k for k in FRESH_PARTS if k in sets]}, open(evp, "w"), ensure_ascii=False)
+    json.dump({"seed": ctx.seed, "events": sets, "fresh": [k for k in sets if k in FRESH_PARTS or k.startswith("X:")]}, open(evp, "w"), ensure_ascii=False)
     with open(rp, "w") as f:
         for r in rules:
             f.write(json.dumps({"id": r.id, "kind": r.kind, "set": r.set, "cfg": r.cfg}, ensure_ascii=False) + "\n")
